@@ -16,6 +16,7 @@ import SfntV.Proofs.OtlGposMark
 import SfntV.Proofs.OtlGposMark4
 import SfntV.Proofs.OtlGpos22
 import SfntV.Proofs.OtlContext
+import SfntV.Proofs.OtlLookupRead
 
 namespace SfntV.Props.C08
 open SfntV SfntV.Otl
@@ -401,23 +402,20 @@ theorem C08_markarray_roundtrip (c : Bytes) (ms : List GposMark.Mark) (P T : Lis
 
 /-- GPOS 4.1 / 6.1: one mark record per glyph of the mark coverage, one row of `classCount` anchors
 per glyph of the base (mark2) coverage; an empty anchor (0, 0) is written as offset 0.  Whenever the
-encoder returns bytes (it panics when the base-array offset or an anchor offset does not fit 16 bits),
-the reader gives everything back and the declared size is the emitted size.
-Hypothesis `hno` is a restriction of the READER, which rejects base arrays with more than 32764
-offsets although the encoder writes them (possible only if all but at most one anchor are empty):
-noted as a finding, see cfg. -/
+encoder returns bytes (it panics when the base-array offset or an anchor offset does not fit 16 bits,
+and - repair 19 - when there are more than 32764 anchor offsets, which the reader rejects),
+the reader gives everything back and the declared size is the emitted size. -/
 theorem C08_st_roundtrip_gpos4_1_6_1 (mcov bcov : List Nat) (marks : List GposMark.Mark)
     (bases : List (List GposMark.Anchor))
     (h1 : Cov.Valid mcov) (h2 : Cov.Valid bcov) (hm : marks.length = mcov.length)
     (hbl : bases.length = bcov.length) (hbn : bases.length < 65536)
     (hrows : ∀ row ∈ bases, row.length = GposMark.countMarkClasses marks bases)
     (hcc : GposMark.countMarkClasses marks bases < 65536)
-    (hno : bases.length * GposMark.countMarkClasses marks bases ≤ 32764)
     (hmk : ∀ m ∈ marks, GposMark.MarkOk m) (hba : ∀ row ∈ bases, ∀ a ∈ row, GposMark.AOk a) (b : Bytes)
     (henc : GposMark.encode41 mcov bcov marks bases = .ok b) :
     GposMark.read41 b = .ok ⟨mcov.zipIdx, bcov.zipIdx, marks, bases⟩ ∧
     GposMark.encodeLen41 mcov bcov marks bases = .ok b.length :=
-  GposMark.roundtrip41 mcov bcov marks bases h1 h2 hm hbl hbn hrows hcc hno hmk hba b henc
+  GposMark.roundtrip41 mcov bcov marks bases h1 h2 hm hbl hbn hrows hcc hmk hba b henc
 
 example : GposMark.encode41 [40] [7, 8] [⟨1, (5, 6)⟩] [[(0, 0), (3, 4)], [(9, 65535), (0, 0)]] =
     .ok (wordsToBytes [1, 12, 18, 2, 26, 38, 1, 1, 40, 1, 2, 7, 8, 1, 1, 6, 1, 5, 6,
@@ -431,8 +429,7 @@ number, and `classdef.Read` makes `k` of them whatever follows - which holds for
 16-bit glyph ids and classes (`C08_gpos2_2_classpart`, from the class-definition round trip).
 Normal form, as for GPOS 1.2 / 2.1: every value record is read back with exactly the fields of the
 formats chosen for the whole subtable (`Gpos.masked`; a nil record next to non-nil ones comes back as
-zeros).  Hypothesis `hn` is a restriction of the READER (class1Count * class2Count < 65536), which
-the encoder does not check; it can only be violated when every value record is nil. -/
+zeros).  The encoder refuses class1Count * class2Count ≥ 65536 (repair 18: the reader rejects it). -/
 
 theorem C08_gpos2_2_classpart (m : ClassDef.Tab) (hm : Gdef.ClassGood m) (B : Bytes)
     (hB : ClassDef.append m = .ok B) :
@@ -445,13 +442,12 @@ theorem C08_st_roundtrip_gpos2_2 (cov : List Nat) (hcov : Cov.Valid cov) (c1 c2 
     (g2 : GposMark.PartGood c2 B2 k2) (rows : List GposMark.Row)
     (hrows : ∀ r ∈ rows, r.length = GposMark.class2Count rows)
     (hok : ∀ r ∈ rows, ∀ p ∈ r, Gpos.VROk p.1 ∧ Gpos.VROk p.2)
-    (hn1 : rows.length < 65536) (hn2 : GposMark.class2Count rows < 65536)
-    (hn : rows.length * GposMark.class2Count rows < 65536) (b : Bytes)
+    (hn1 : rows.length < 65536) (hn2 : GposMark.class2Count rows < 65536) (b : Bytes)
     (henc : GposMark.encode22 cov c1 c2 rows = .ok b) :
     GposMark.read22 b = .ok ⟨cov, k1, k2,
       rows.map fun r => r.map (GposMark.maskPair (GposMark.fmt1 rows) (GposMark.fmt2 rows))⟩ ∧
     GposMark.encodeLen22 cov c1 c2 rows = .ok b.length :=
-  GposMark.roundtrip22 cov hcov c1 c2 B1 B2 k1 k2 g1 g2 rows hrows hok hn1 hn2 hn b henc
+  GposMark.roundtrip22 cov hcov c1 c2 B1 B2 k1 k2 g1 g2 rows hrows hok hn1 hn2 b henc
 
 /-! ## Contextual lookups (GSUB types 5, 6 = GPOS types 7, 8; models of the repaired encoders in nested.go)
 
@@ -469,7 +465,9 @@ theorem C08_st_roundtrip_seqcontext1 (rev : List Nat) (sets : List (Option (List
     Ctx.read1 b = .ok (.c1 false rev.zipIdx sets) ∧ Ctx.encodeLen1 rev sets = .ok b.length :=
   Ctx.roundtrip1 rev sets h hl hok b henc
 
-/-- SeqContext3 (one coverage table per position; the reader requires at least one) -/
+/-- SeqContext3 (one coverage table per position).  `hne`: at least one - the reader rejects glyphCount 0,
+which the encoder writes (known finding C08-context3-no-input; `apply` indexes Input[0], so such a value
+is not a usable lookup) -/
 theorem C08_st_roundtrip_seqcontext3 (covs : List (List Nat)) (actions : List Ctx.Action)
     (hv : ∀ c ∈ covs, Cov.Valid c) (hne : covs ≠ []) (ha : ∀ a ∈ actions, Ctx.ActOk a) (b : Bytes)
     (henc : Ctx.encode3 covs actions = .ok b) :
@@ -485,7 +483,8 @@ theorem C08_st_roundtrip_chainedseqcontext1 (rev : List Nat) (sets : List (Optio
     Ctx.readC1 b = .ok (.c1 true rev.zipIdx sets) ∧ Ctx.encodeLenC1 rev sets = .ok b.length :=
   Ctx.roundtripC1 rev sets h hl hn hok b henc
 
-/-- ChainedSeqContext3 (backtrack, input, lookahead coverage lists; the reader requires an input) -/
+/-- ChainedSeqContext3 (backtrack, input, lookahead coverage lists).  `hne`: at least one input coverage
+(as for SeqContext3) -/
 theorem C08_st_roundtrip_chainedseqcontext3 (back input look : List (List Nat)) (actions : List Ctx.Action)
     (hvb : ∀ c ∈ back, Cov.Valid c) (hvi : ∀ c ∈ input, Cov.Valid c) (hvl : ∀ c ∈ look, Cov.Valid c)
     (hne : input ≠ []) (ha : ∀ a ∈ actions, Ctx.ActOk a) (b : Bytes)
@@ -693,6 +692,62 @@ theorem C08_gtab_scriptlist_roundtrip (es : List SL.Entry) (h : SL.InputOk es) (
   have := congrArg List.length h2
   simp only [List.length_drop, List.length_append] at this ⊢
   omega
+
+/-- The whole GSUB/GPOS table: script list, feature list and lookup list written by their encoders and
+assembled by `Info.Encode`.  Whenever every encoder returns bytes, the header logic of the reader
+finds the three lists, `readScriptList` (called with the size of the whole table) gives exactly the
+script-list entries back, `readFeatureList` gives the feature list back, and the specification reader
+recovers every lookup and subtable of the lookup list.  (Hypotheses as in `C08_scriptlist_roundtrip`,
+`C08_featurelist_roundtrip`, `C08_lookuplist_layout`.) -/
+theorem C08_gtab_roundtrip_full (es : List SL.Entry) (hes : SL.InputOk es) (fl : List FL.Feature)
+    (Dfl : FL.Dom fl) (ll : List LL.Lookup) (Dll : LL.LLDom ll) (extT : Nat) (hTlt : extT < 65536)
+    (hT : ∀ l ∈ ll, l.type ≠ extT) (hX : LL.extLookupType ll = 0 ∨ LL.extLookupType ll = extT)
+    (hsz : LL.totalSize (LL.chunksOf ll) + 8 * (ll.map (·.subs.length)).sum < 4294967296)
+    (S F L b : Bytes) (hS : SL.encode es = .ok S) (hF : FL.encode fl = .ok F) (hL : LL.encode ll = .ok L)
+    (hb : Gtab.encode (some S) (some F) (some L) = .ok b) :
+    Gtab.readHeader b = .ok (some (10, 10 + S.length, 10 + S.length + F.length)) ∧
+    (∃ r, SL.readSized b.length (b.drop 10) = .ok r ∧ ∀ e, e ∈ r ↔ e ∈ es) ∧
+    FL.read (b.drop (10 + S.length)) = .ok fl ∧
+    LL.Recovered (b.drop (10 + S.length + F.length)) extT ll := by
+  have hSne : S ≠ [] := by
+    intro h0
+    subst h0
+    unfold SL.encode SL.encodePlans at hS
+    split at hS
+    · split at hS
+      · simp only [Outcome.ok.injEq] at hS
+        have := congrArg List.length hS
+        simp [be16] at this
+      · simp at hS
+      · simp at hS
+    · simp at hS
+    · simp at hS
+  obtain ⟨h1, h2, h3, h4⟩ := C08_gtab_roundtrip S hSne fl Dfl ll Dll extT hTlt hT hX hsz F L b hF hL hb
+  refine ⟨h1, ?_, h3, h4⟩
+  rw [h2, List.append_assoc]
+  apply SL.roundtrip es hes S hS (F ++ L) b.length
+  have := congrArg List.length h2
+  simp only [List.length_drop, List.length_append] at this ⊢
+  omega
+
+/-- The reader also accepts version 1.1 headers (which `Info.Encode` never writes): the feature
+variations offset is only validated - 0, or inside the table behind the 14-byte header - and the
+three lists are read from the same offsets. -/
+theorem C08_gtab_header_v11 (so fo lo hi lw : Nat) (hso : so < 65536) (hfo : fo < 65536) (hlo : lo < 65536)
+    (hhi : hi < 65536) (hlw : lw < 65536) (rest : Bytes)
+    (h1 : 14 ≤ so ∧ so < 14 + rest.length) (h2 : 14 ≤ fo ∧ fo < 14 + rest.length)
+    (h3 : 14 ≤ lo ∧ lo < 14 + rest.length)
+    (hfv : hi * 65536 + lw = 0 ∨ (14 ≤ hi * 65536 + lw ∧ hi * 65536 + lw < 14 + rest.length)) :
+    Gtab.readHeader (wordsToBytes [1, 1, so, fo, lo, hi, lw] ++ rest) = .ok (some (so, fo, lo)) :=
+  Gtab.header_v11 so fo lo hi lw hso hfo hlo hhi hlw rest h1 h2 h3 hfv
+
+/-- `readLookupList` (the Go reader, with its 6000-entry budget and its two-pass extension resolution;
+subtables as the positions they are read from) against the specification reader: on EVERY byte
+string the Go reader accepts, the specification reader finds the same lookups - effective types,
+flags, mark filtering sets (present exactly with flag 0x0010) and subtable positions. -/
+theorem C08_readlookuplist_sound (b : Bytes) (extType : Nat) (ls : List (LL.ReadLookup Nat))
+    (h : LL.readLL b extType = .ok ls) : LL.specRead b extType = some (ls.map LL.toSpec) :=
+  LL.readLL_spec b extType ls h
 
 /-! Non-vacuity: `DFLT` with a default language system and `latn` with `TRK ` (that `SL.known` holds of
 these tags is evaluated, not kernel-reduced — `String.toUTF8` does not reduce —: the stream
